@@ -6,7 +6,8 @@
 //! `store`  : the same over the real prunable `PMMRBackend` in prune states reached through the
 //!            store's usage protocol: no spends, random spends, spent aligned subtrees, after
 //!            `check_compact`, spends after compaction, spends after the bitmap snapshot.
-//! `ident`  : identifiers with an empty / out-of-range / wrapped range (`catch`).
+//! `ident`  : identifiers with an empty / out-of-range / wrapped range (`catch`): regression probe
+//!            for the repaired `Segment::root` (must refuse with an error, never panic).
 //! `bitmap` : `BitmapSegment` <-> `Segment<BitmapChunk>` and validation against the accumulator.
 //! `e2e`    : source chain -> segmenter -> desegmenter of a fresh chain (random order, duplicates,
 //!            tampered segments) -> `validate_complete_state` -> compare with the source.
@@ -20,7 +21,14 @@ use grin_core::core::hash::{Hash, Hashed};
 use grin_core::core::pmmr::segment::{Segment, SegmentError, SegmentIdentifier, SegmentProof};
 use grin_core::core::pmmr::{self, Backend, ReadablePMMR, ReadonlyPMMR, VecBackend, PMMR};
 use grin_core::ser::{self, PMMRIndexHashable, ProtocolVersion};
+use grin_chain::txhashset::{BitmapAccumulator, BitmapChunk, BitmapSegment};
+use grin_chain::types::SyncState;
+use grin_core::core::{OutputIdentifier, TxKernel};
 use grin_store::pmmr::PMMRBackend;
+use grin_util::secp::pedersen::RangeProof;
+use grin_util::StopState;
+use gvharness::chainkit::{error_class, KSpec, Kit, Subject, TxSpec};
+use std::sync::Arc;
 use gvharness::elem::Elem;
 use gvharness::*;
 use std::collections::{BTreeMap, BTreeSet};
@@ -94,6 +102,24 @@ impl LeafBytes for Elem {
 	}
 	fn from_bytes(b: &[u8]) -> Self {
 		Elem(b.to_vec())
+	}
+}
+
+impl LeafBytes for BitmapChunk {
+	fn to_bytes(&self) -> Vec<u8> {
+		ser::ser_vec(self, ProtocolVersion(1)).unwrap()
+	}
+	fn from_bytes(b: &[u8]) -> Self {
+		// `BitVec::from_bytes` order: bit i of the chunk is bit 7 - i % 8 of byte i / 8
+		let mut c = BitmapChunk::new();
+		for (i, byte) in b.iter().enumerate() {
+			for k in 0..8 {
+				if byte & (0x80 >> k) != 0 {
+					c.set((i * 8 + k) as u64, true);
+				}
+			}
+		}
+		c
 	}
 }
 
@@ -257,7 +283,16 @@ impl<'a> Cx<'a> {
 					));
 				}
 			}
-			Expect::Any => {}
+			Expect::Any => {
+				if v == "panic" {
+					self.out.raw(&format!(
+						"#ORACLE-FAIL C16 {} validate panicked ({}): {}",
+						self.tag,
+						kind,
+						validate_lhs(p, t, bm)
+					));
+				}
+			}
 		}
 		v
 	}
@@ -904,13 +939,16 @@ fn ident_mode(out: &mut Out, rng: &mut Rng, _thorough: bool) {
 				let v = run_validate(&seg, &t, bm.as_ref());
 				out.line(&validate_lhs(&p, &t, bm.as_ref()), &v);
 				st.inc(&format!("validate:{}", v.split(':').take(2).collect::<Vec<_>>().join(":")));
-				if v == "panic" {
+				// regression probe for the repaired `Segment::root` (commit 22ca8fd14): such a
+				// segment must be refused with an error, never panic
+				if v == "panic" || rs == "panic" {
 					out.raw(&format!(
-						"#KNOWN-PROBE C16 segment-validate-panics-on-out-of-range-identifier height={} idx={} mmr_size={} bitmap={} (Segment::validate -> Segment::root unwrap on None)",
+						"#ORACLE-FAIL C16 regression: Segment::validate/root panicked on an out-of-range identifier height={} idx={} mmr_size={} bitmap={}: {}",
 						h,
 						idx,
 						size,
-						if bm.is_some() { "some" } else { "none" }
+						if bm.is_some() { "some" } else { "none" },
+						validate_lhs(&p, &t, bm.as_ref())
 					));
 				}
 				if v == "ok" {
@@ -922,8 +960,692 @@ fn ident_mode(out: &mut Out, rng: &mut Rng, _thorough: bool) {
 	st.dump(out, "ident");
 }
 
+/// (ii) `BitmapSegment` <-> `Segment<BitmapChunk>` and validation against the accumulator root
+fn bitmap_mode(out: &mut Out, rng: &mut Rng, thorough: bool) {
+	let mut st = Stats::default();
+	let rounds = if thorough { 40 } else { 14 };
+	for round in 0..rounds {
+		// number of outputs: up to ~40 chunks; some exactly on chunk boundaries
+		let n_chunks = if round < 6 { round + 1 } else { rng.range(1, if thorough { 70 } else { 40 }) };
+		let n_out = match rng.below(3) {
+			0 => n_chunks * 1024,
+			1 => n_chunks * 1024 - rng.range(1, 1023),
+			_ => (n_chunks - 1) * 1024 + 1,
+		};
+		let dens = *rng.pick(&[0u64, 1, 50, 500, 950, 999, 1000]);
+		let mut unspent: Vec<u64> = (0..n_out).filter(|_| rng.below(1000) < dens).collect();
+		if unspent.last() != Some(&(n_out - 1)) {
+			unspent.push(n_out - 1);
+		}
+		let mut acc = BitmapAccumulator::new();
+		acc.init(unspent.iter().cloned(), n_out).unwrap();
+		let root = acc.root();
+		let mmr = acc.readonly_pmmr();
+		let size = mmr.unpruned_size();
+		// the output PMMR root the bitmap root is merged with (any hash will do)
+		let output_root = Hash::from_vec(&rng.bytes(32));
+		let out_size = pmmr::insertion_to_pmmr_index(n_out);
+		let merged = (root, output_root).hash_with_index(out_size);
+		st.inc("accumulators");
+		st.add("chunks", pmmr::n_leaves(size));
+		for h in [0u8, 1, 2, 3, 5, 9] {
+			let n = SegmentIdentifier::count_segments_required(size, h) as u64;
+			for idx in 0..n {
+				let id = SegmentIdentifier { height: h, idx };
+				let seg = match Segment::<BitmapChunk>::from_pmmr(id, &mmr, false) {
+					Ok(s) => s,
+					Err(e) => {
+						out.raw(&format!("#ORACLE-FAIL C16 bitmap from_pmmr failed n_out={} id=({},{}) {}", n_out, h, idx, err_str(&e)));
+						continue;
+					}
+				};
+				st.inc("segments");
+				let p = parts_of(&seg);
+				// round trip through the wire form
+				let bs = BitmapSegment::from(seg.clone());
+				let bytes = ser::ser_vec(&bs, ProtocolVersion(1)).unwrap();
+				let back: Result<BitmapSegment, _> = ser::deserialize_default(&mut &bytes[..]);
+				match back {
+					Ok(b2) => {
+						if b2 != bs {
+							out.raw(&format!("#ORACLE-FAIL C16 BitmapSegment wire round trip differs n_out={} id=({},{})", n_out, h, idx));
+						}
+						match catch(AssertUnwindSafe(|| b2.into_segment())) {
+							Ok(Ok(s2)) => {
+								if s2 != seg {
+									out.raw(&format!("#ORACLE-FAIL C16 BitmapSegment -> Segment<BitmapChunk> differs from the original n_out={} id=({},{})", n_out, h, idx));
+								}
+								st.inc("roundtrip-ok");
+							}
+							_ => out.raw(&format!("#ORACLE-FAIL C16 into_segment failed on an honest bitmap segment n_out={} id=({},{})", n_out, h, idx)),
+						}
+					}
+					Err(e) => out.raw(&format!("#ORACLE-FAIL C16 honest BitmapSegment does not deserialise n_out={} id=({},{}) {:?}", n_out, h, idx, e)),
+				}
+				// validation: plain against the accumulator root, and the way the desegmenter does
+				// it (`validate_with(size, None, merged_root, output_mmr_size, output_root, false)`)
+				let plain = Target { size, root, with: None };
+				let with = Target { size, root: merged, with: Some((out_size, output_root, false)) };
+				let emit = n_chunks <= 3 || rng.chance(1, if thorough { 10 } else { 25 });
+				for (t, kind) in [(&plain, "bitmap-honest"), (&with, "bitmap-honest-with")] {
+					let v = run_validate(&seg, t, None);
+					if emit {
+						out.line(&validate_lhs(&p, t, None), &v);
+					}
+					st.inc(&format!("{}:{}", kind, v));
+					if v != "ok" {
+						out.raw(&format!("#ORACLE-FAIL C16 honest bitmap segment not accepted n_out={} id=({},{}) {}", n_out, h, idx, v));
+					}
+				}
+				// a single bit of a chunk flipped / a chunk dropped / proof hash altered
+				let mut tampered: Vec<(Parts, &str)> = vec![];
+				{
+					let mut d = p.clone();
+					let i = rng.below(d.leaf_data.len() as u64) as usize;
+					let k = rng.below(128) as usize;
+					d.leaf_data[i][k] ^= 1 << rng.below(8);
+					tampered.push((d, "bitmap-bit"));
+					let mut d = p.clone();
+					let i = rng.below(d.leaf_data.len() as u64) as usize;
+					d.leaf_pos.remove(i);
+					d.leaf_data.remove(i);
+					tampered.push((d, "bitmap-drop-chunk"));
+					if !p.proof.is_empty() {
+						let mut d = p.clone();
+						let i = rng.below(d.proof.len() as u64) as usize;
+						d.proof[i] = flip(&p.proof[i], rng);
+						tampered.push((d, "bitmap-proof-hash"));
+					}
+				}
+				for (d, kind) in tampered {
+					if let Some(s2) = build::<BitmapChunk>(&d) {
+						let t = if rng.chance(1, 2) { &plain } else { &with };
+						let v = run_validate(&s2, t, None);
+						if emit && rng.chance(1, 2) {
+							out.line(&validate_lhs(&d, t, None), &v);
+						}
+						st.inc(&format!("{}:{}", kind, if v == "ok" { "accepted" } else { "rejected" }));
+						if v == "ok" || v == "panic" {
+							out.raw(&format!("#ORACLE-FAIL C16 tampered bitmap segment ({}) not rejected n_out={} id=({},{}) {}", kind, n_out, h, idx, v));
+						}
+						// the tampered segment through the wire form: conversion must not panic
+						let bs2 = catch(AssertUnwindSafe(|| BitmapSegment::from(s2.clone())));
+						if let Ok(bs2) = bs2 {
+							let bytes = ser::ser_vec(&bs2, ProtocolVersion(1)).unwrap();
+							let back: Result<BitmapSegment, _> = ser::deserialize_default(&mut &bytes[..]);
+							if let Ok(b3) = back {
+								match catch(AssertUnwindSafe(|| b3.into_segment())) {
+									Ok(_) => st.inc("tampered-wire:no-panic"),
+									Err(_) => out.raw(&format!("#ORACLE-FAIL C16 into_segment panicked ({}) n_out={} id=({},{})", kind, n_out, h, idx)),
+								}
+							}
+						}
+					}
+				}
+			}
+		}
+	}
+	// malformed wire forms of a BitmapSegment: never a panic
+	{
+		let mut acc = BitmapAccumulator::new();
+		acc.init(vec![1u64, 5, 1500, 2047], 2048).unwrap();
+		let mmr = acc.readonly_pmmr();
+		let seg = Segment::<BitmapChunk>::from_pmmr(SegmentIdentifier { height: 1, idx: 0 }, &mmr, false).unwrap();
+		let bytes = ser::ser_vec(&BitmapSegment::from(seg), ProtocolVersion(1)).unwrap();
+		let n = if thorough { 20000 } else { 3000 };
+		for _ in 0..n {
+			let mut b = bytes.clone();
+			match rng.below(3) {
+				0 => {
+					let i = rng.below(b.len().min(24) as u64) as usize;
+					b[i] = rng.next() as u8;
+				}
+				1 => {
+					let i = rng.below(b.len() as u64) as usize;
+					b[i] ^= 1 << rng.below(8);
+				}
+				_ => {
+					let l = rng.below(b.len() as u64) as usize;
+					b.truncate(l);
+				}
+			}
+			let r = catch(AssertUnwindSafe(|| {
+				let back: Result<BitmapSegment, _> = ser::deserialize_default(&mut &b[..]);
+				match back {
+					Ok(bs) => match bs.into_segment() {
+						Ok(s) => {
+							let _ = s.validate(3, None, Hash::from_vec(&[0u8; 32]));
+							"ok"
+						}
+						Err(_) => "into-err",
+					},
+					Err(_) => "read-err",
+				}
+			}));
+			match r {
+				Ok(k) => st.inc(&format!("malformed-wire:{}", k)),
+				Err(m) => {
+					out.raw(&format!("#ORACLE-FAIL C16 malformed BitmapSegment bytes panic ({}): {}", m, hex(&b)))
+				}
+			}
+		}
+	}
+	// regression probe for the repaired `BitmapSegment::into_segment` (commit 823a23060; finding
+	// C16-bitmap-segment-leaf-offset-wrap): leaf indices reaching 2^63 must be refused with an
+	// error; the largest accepted ones (last leaf index 2^63 - 1) must not panic anywhere
+	// downstream (conversion, root reconstruction, validation)
+	{
+		fn wire(h: u8, idx: u64, n_chunks: usize) -> Vec<u8> {
+			let mut b = vec![h];
+			b.extend_from_slice(&idx.to_be_bytes());
+			let n_blocks = (n_chunks + 63) / 64;
+			b.extend_from_slice(&(n_blocks as u16).to_be_bytes());
+			let mut left = n_chunks;
+			while left > 0 {
+				let c = left.min(64);
+				left -= c;
+				b.push(c as u8);
+				b.push(1); // positive indices
+				b.extend_from_slice(&1u16.to_be_bytes());
+				b.extend_from_slice(&5u16.to_be_bytes());
+			}
+			b.extend_from_slice(&0u64.to_be_bytes());
+			b
+		}
+		let mut cases: Vec<(u8, u64, usize, &str)> = vec![(1, 1 << 62, 2, "original")];
+		for h in 0..=13u8 {
+			let cap = 1u64 << h;
+			let per = (1u64 << 63) / cap;
+			cases.push((h, per - 1, cap as usize, "last=2^63-1"));
+			cases.push((h, per - 1, 1, "offset=2^63-2^h"));
+			cases.push((h, per, 1, "offset=2^63"));
+			cases.push((h, per, cap as usize, "offset=2^63,full"));
+			cases.push((h, per + 1, 1, "offset>2^63"));
+			if h == 0 {
+				cases.push((0, (1 << 63) - 1, 1, "offset=2^63-1"));
+			}
+			if h >= 1 {
+				cases.push((h, per - 1, cap as usize - 1, "last=2^63-2"));
+				cases.push((h, u64::MAX / cap, 1, "offset-near-u64-max"));
+				cases.push((h, u64::MAX / cap + 1, 1, "offset-overflows"));
+			}
+		}
+		for (h, idx, n_chunks, what) in cases {
+			let b = wire(h, idx, n_chunks);
+			let r = catch(AssertUnwindSafe(|| {
+				let back: Result<BitmapSegment, _> = ser::deserialize_default(&mut &b[..]);
+				match back {
+					Ok(bs) => match bs.into_segment() {
+						Ok(seg) => {
+							for size in [3u64, 10, (1 << 40) + 3, u64::MAX - 1, (1u64 << 63) - 1] {
+								if let Ok((f, l)) = catch(|| seg.identifier().segment_pos_range(size)) {
+									if l >= f && l - f > 70000 {
+										continue;
+									}
+								}
+								let _ = seg.root(size, None);
+								let _ = seg.validate(size, None, Hash::from_vec(&[1u8; 32]));
+								let _ = seg.validate_with(size, None, Hash::from_vec(&[1u8; 32]), 77, Hash::from_vec(&[2u8; 32]), true);
+							}
+							"accepted"
+						}
+						Err(_) => "into-err",
+					},
+					Err(_) => "read-err",
+				}
+			}));
+			match r {
+				Err(m) => out.raw(&format!(
+					"#ORACLE-FAIL C16 regression (C16-bitmap-segment-leaf-offset-wrap): BitmapSegment height={} idx={} n_chunks={} ({}) panicked: {} bytes={}",
+					h,
+					idx,
+					n_chunks,
+					what,
+					m,
+					hex(&b[..b.len().min(40)])
+				)),
+				Ok(k) => {
+					st.inc(&format!("offset-probe:{}:{}", what, k));
+					let last = (idx as u128) * (1u128 << h) + n_chunks as u128 - 1;
+					if k == "accepted" && last >= (1u128 << 63) {
+						out.raw(&format!(
+							"#ORACLE-FAIL C16 regression (C16-bitmap-segment-leaf-offset-wrap): BitmapSegment with last leaf index >= 2^63 accepted: height={} idx={} n_chunks={}",
+							h, idx, n_chunks
+						));
+					}
+				}
+			}
+		}
+	}
+	st.dump(out, "bitmap");
+}
+
+/// tamper with a segment: exchange the data of two neighbouring leaves (or, with a single leaf,
+/// move it to another position).  Returns the segment and whether a leaf whose data validation
+/// requires (`required(pos0)`) was touched -- data of spent leaves that an uncompacted source
+/// still ships is redundant: validation ignores it (the property's caveat) and a tampered copy is
+/// only caught by the final roots check.
+fn tamper<T: Clone>(seg: &Segment<T>, rng: &mut Rng, required: &dyn Fn(u64) -> bool) -> Option<(Segment<T>, bool)> {
+	let (id, hp, hs, mut lp, mut ld, proof) = seg.clone().parts();
+	let req;
+	if ld.len() >= 2 {
+		let i = rng.below(ld.len() as u64 - 1) as usize;
+		req = required(lp[i]) || required(lp[i + 1]);
+		ld.swap(i, i + 1);
+	} else if ld.len() == 1 {
+		req = required(lp[0]);
+		lp[0] += 1;
+	} else {
+		return None;
+	}
+	catch(AssertUnwindSafe(move || Segment::from_parts(id, hp, hs, lp, ld, proof))).ok().map(|s| (s, req))
+}
+
+/// (iii) end to end: source chain -> segmenter -> desegmenter of a fresh chain
+fn e2e_mode(out: &mut Out, rng: &mut Rng, thorough: bool) {
+	let work = std::env::var("VERIF_WORK").expect("VERIF_WORK not set");
+	let mut st = Stats::default();
+	// (name, blocks, compact the source, style, exact number of outputs at the archive header)
+	// style "small": 0-2 small transactions per block (one bitmap chunk: <= 1024 outputs, possible
+	// since the repair 769a13f24 of `Desegmenter::new`); style "big": one 1-3-input 9-output
+	// transaction per block (> 1024 outputs: two bitmap chunks); `Some(n)`: the output count at the
+	// archive header is steered to exactly n
+	let mut scenarios: Vec<(&str, u64, bool, &str, Option<u64>)> =
+		vec![("small-uncompacted", 46, false, "small", None), ("small-compacted", 90, true, "small", None)];
+	// NB compacted sources use a length with (n - 20) % 10 == 0: under AutomatedTesting
+	// state_sync_threshold == cut_through_horizon == 20, so otherwise the archive header lies
+	// *before* the compaction horizon, the source has compacted away outputs that were still
+	// unspent at the archive header and its honest output / rangeproof segments are (rightly)
+	// refused with MissingLeaf -- unreachable with mainnet parameters (2 days vs 1 week)
+	if thorough {
+		scenarios.push(("big-compacted", 140, true, "big", None));
+		scenarios.push(("big-exactly-1024-outputs", 137, false, "big", Some(1024)));
+		scenarios.push(("big-exactly-1025-outputs", 140, true, "big", Some(1025)));
+	}
+	for (name, n_trunk, compact, style, exact) in scenarios {
+		let mut kit = Kit::new(&format!("{}/e2e_src_{}", work, name));
+		let mut tip = 0usize;
+		let mut trunk = vec![0usize];
+		let mut spendable: Vec<(usize, u64)> = vec![(0, 0)];
+		// the archive header of a chain of n_trunk blocks
+		let planned_archive = {
+			let t = n_trunk.saturating_sub(20);
+			t - t % 10
+		};
+		for h in 1..=n_trunk {
+			let mut specs = vec![];
+			if h >= 4 && style == "small" {
+				for _ in 0..rng.range(0, 2) {
+					let cands: Vec<usize> = spendable
+						.iter()
+						.enumerate()
+						.filter(|(_, (o, c))| (!kit.outs[*o].coinbase || h >= *c + 3) && kit.outs[*o].value > 5000)
+						.map(|(i, _)| i)
+						.collect();
+					if cands.is_empty() {
+						break;
+					}
+					let pick = *rng.pick(&cands);
+					let (o, _) = spendable.remove(pick);
+					let v = kit.outs[o].value;
+					if rng.chance(1, 3) {
+						specs.push(TxSpec { inputs: vec![o], outputs: vec![(v - 100, None)], kernel: KSpec::Plain(100) });
+					} else {
+						let a = rng.range(1, v / 2);
+						specs.push(TxSpec { inputs: vec![o], outputs: vec![(a, None), (v - a - 200, None)], kernel: KSpec::Plain(200) });
+					}
+				}
+			}
+			if h >= 4 && style == "big" {
+				// outputs so far (all ever created = leaves of the output MMR)
+				let current = kit.outs.len() as u64;
+				let n_out = match exact {
+					Some(target) if h <= planned_archive => {
+						// this block adds 1 coinbase + n_out; every later block up to the archive
+						// header adds at least its coinbase
+						let later = planned_archive - h;
+						let room = target.saturating_sub(current + 1 + later);
+						room.min(9)
+					}
+					_ => 9,
+				};
+				let n_in = rng.range(1, 3) as usize;
+				let mut ins = vec![];
+				let mut total = 0u64;
+				for k in 0..n_in {
+					if n_out == 0 {
+						break;
+					}
+					let cands: Vec<usize> = spendable
+						.iter()
+						.enumerate()
+						.filter(|(_, (o, c))| (!kit.outs[*o].coinbase || h >= *c + 3) && kit.outs[*o].value > 5000)
+						.map(|(i, _)| i)
+						.collect();
+					if cands.is_empty() {
+						break;
+					}
+					let pick = if k > 0 && rng.chance(1, 2) { cands[0] } else { *rng.pick(&cands) };
+					let (o, _) = spendable.remove(pick);
+					total += kit.outs[o].value;
+					ins.push(o);
+				}
+				if !ins.is_empty() {
+					let fee = 300u64;
+					let each = (total - fee) / n_out;
+					let mut outs: Vec<(u64, Option<usize>)> = (0..n_out - 1).map(|_| (each, None)).collect();
+					outs.push((total - fee - each * (n_out - 1), None));
+					specs.push(TxSpec { inputs: ins, outputs: outs, kernel: KSpec::Plain(fee) });
+				}
+			}
+			let before = kit.outs.len();
+			match kit.new_block(tip, 2, &specs) {
+				Ok(id) => {
+					tip = id;
+					trunk.push(id);
+					for o in before..kit.outs.len() {
+						spendable.push((o, h));
+					}
+				}
+				Err(e) => st.inc(&format!("generator:{}", e)),
+			}
+		}
+		let src = kit.builder();
+		if compact {
+			let tail_before = src.tail().map(|t| t.height).unwrap_or(0);
+			if let Err(e) = src.compact() {
+				out.raw(&format!("#ORACLE-FAIL C16 e2e harness: source compaction failed: {}", error_class(&e)));
+			}
+			let tail_after = src.tail().map(|t| t.height).unwrap_or(0);
+			st.add(&format!("{}:source-compaction-moved-tail", name), (tail_after > tail_before) as u64);
+		}
+		let archive = src.txhashset_archive_header().unwrap();
+		st.add(&format!("{}:blocks", name), n_trunk);
+		st.add(&format!("{}:archive-height", name), archive.height);
+		st.add(&format!("{}:output-leaves-at-archive", name), pmmr::n_leaves(archive.output_mmr_size));
+		st.add(&format!("{}:kernel-leaves-at-archive", name), pmmr::n_leaves(archive.kernel_mmr_size));
+		if let Some(target) = exact {
+			if pmmr::n_leaves(archive.output_mmr_size) != target {
+				out.raw(&format!(
+					"#STAT [e2e] {}: steering missed: {} outputs at the archive header instead of {}",
+					name,
+					pmmr::n_leaves(archive.output_mmr_size),
+					target
+				));
+			}
+		}
+		if archive.height == 0 {
+			out.raw("#ORACLE-FAIL C16 e2e harness: no archive header above genesis");
+			continue;
+		}
+		// reference: a node that processed every block up to the archive header
+		let twin = Subject::new(&format!("{}/e2e_twin_{}", work, name), &kit.genesis);
+		for i in &trunk[1..] {
+			if kit.blks[*i].height <= archive.height {
+				twin.deliver_block(&kit.blks[*i].block);
+			}
+		}
+		let ref_obs = twin.utxo(&kit);
+		let mut unspent_idx: BTreeSet<u64> = BTreeSet::new();
+		for o in &kit.outs {
+			if let Ok(Some((_, cp))) = twin.c().get_unspent(o.commit) {
+				unspent_idx.insert(pmmr::n_leaves(cp.pos) - 1);
+			}
+		}
+		let archive_out_size = archive.output_mmr_size;
+		let req_out = |pos0: u64| -> bool {
+			let i = pmmr::n_leaves(pos0 + 1) - 1;
+			unspent_idx.contains(&i) || unspent_idx.contains(&(i ^ 1)) || pos0 + 1 == archive_out_size
+		};
+		let req_all = |_pos0: u64| -> bool { true };
+		let ref_roots = twin.roots();
+		let ref_valid = twin.c().validate(false).is_ok();
+		// several receiving nodes with different arrival orders / tampering
+		let receivers = if thorough { 4 } else { 2 };
+		for rcv in 0..receivers {
+			let dest = Subject::new(&format!("{}/e2e_dst_{}_{}", work, name, rcv), &kit.genesis);
+			let headers: Vec<_> = trunk[1..].iter().map(|i| kit.blks[*i].block.header.clone()).collect();
+			let r = dest.sync_headers(&headers);
+			if r != "ok" {
+				out.raw(&format!("#ORACLE-FAIL C16 e2e harness: header sync failed: {}", r));
+				continue;
+			}
+			let ah = dest.c().txhashset_archive_header_header_only().unwrap();
+			if ah.hash() != archive.hash() {
+				out.raw("#ORACLE-FAIL C16 e2e harness: archive headers differ");
+				continue;
+			}
+			let deseg = dest.c().desegmenter(&ah).unwrap();
+			let segmenter = src.segmenter().unwrap();
+			let mut rounds = 0;
+			let mut complete = false;
+			// a tampered copy of redundant data was accepted: the final roots check has to catch it
+			let mut poisoned = false;
+			while !complete && rounds < 60 {
+				rounds += 1;
+				// what the desegmenter asks for, plus unsolicited ones of every type, in random
+				// order, with duplicates and tampered copies
+				let mut wanted: Vec<(u8, SegmentIdentifier)> = vec![];
+				if let Some(d) = deseg.write().as_mut() {
+					for sid in d.next_desired_segments(12) {
+						let t = match sid.segment_type {
+							grin_core::core::pmmr::segment::SegmentType::Bitmap => 0,
+							grin_core::core::pmmr::segment::SegmentType::Output => 1,
+							grin_core::core::pmmr::segment::SegmentType::RangeProof => 2,
+							grin_core::core::pmmr::segment::SegmentType::Kernel => 3,
+						};
+						wanted.push((t, sid.identifier));
+					}
+				}
+				st.add("requested", wanted.len() as u64);
+				if rng.chance(1, 2) {
+					for t in 0..4u8 {
+						let h = if t == 0 { 9 } else { 11 };
+						let _ = style;
+						wanted.push((t, SegmentIdentifier { height: h, idx: 0 }));
+					}
+				}
+				let dup: Vec<_> = wanted.iter().filter(|_| rng.chance(1, 3)).cloned().collect();
+				wanted.extend(dup);
+				for i in (1..wanted.len()).rev() {
+					let j = rng.below(i as u64 + 1) as usize;
+					wanted.swap(i, j);
+				}
+				for (t, id) in wanted {
+					let bad = rng.chance(1, 4);
+					let mut guard = deseg.write();
+					let d = match guard.as_mut() {
+						Some(d) => d,
+						None => break,
+					};
+					let mut redundant_only = false;
+					let (res, tampered): (Result<(), grin_chain::Error>, bool) = match t {
+						0 => match segmenter.bitmap_segment(id) {
+							Ok((seg, root)) => {
+								// a tampered bitmap segment: claim another output root
+								if bad {
+									(d.add_bitmap_segment(seg, Hash::from_vec(&rng.bytes(32))), true)
+								} else {
+									(d.add_bitmap_segment(seg, root), false)
+								}
+							}
+							Err(_) => continue,
+						},
+						1 => match segmenter.output_segment(id) {
+							Ok((seg, root)) => match (bad, tamper::<OutputIdentifier>(&seg, rng, &req_out)) {
+								(true, Some((s2, req))) => {
+									redundant_only = !req;
+									(d.add_output_segment(s2, Some(root)), true)
+								}
+								_ => (d.add_output_segment(seg, Some(root)), false),
+							},
+							Err(_) => continue,
+						},
+						2 => match segmenter.rangeproof_segment(id) {
+							Ok(seg) => match (bad, tamper::<RangeProof>(&seg, rng, &req_out)) {
+								(true, Some((s2, req))) => {
+									redundant_only = !req;
+									(d.add_rangeproof_segment(s2), true)
+								}
+								_ => (d.add_rangeproof_segment(seg), false),
+							},
+							Err(_) => continue,
+						},
+						_ => match segmenter.kernel_segment(id) {
+							Ok(seg) => match (bad, tamper::<TxKernel>(&seg, rng, &req_all)) {
+								(true, Some((s2, _))) => (d.add_kernel_segment(s2), true),
+								_ => (d.add_kernel_segment(seg), false),
+							},
+							Err(_) => continue,
+						},
+					};
+					let kind = ["bitmap", "output", "rangeproof", "kernel"][t as usize];
+					st.inc(&format!(
+						"add-{}:{}:{}",
+						kind,
+						if tampered && redundant_only { "tampered-redundant-leaf" } else if tampered { "tampered" } else { "honest" },
+						if res.is_ok() { "accepted" } else { "rejected" }
+					));
+					if tampered && redundant_only && res.is_ok() {
+						poisoned = true;
+					}
+					if tampered && !redundant_only && res.is_ok() {
+						out.raw(&format!(
+							"#ORACLE-FAIL C16 e2e {}: tampered {} segment accepted by the desegmenter (id {},{})",
+							name, kind, id.height, id.idx
+						));
+					}
+				}
+				let mut guard = deseg.write();
+				if let Some(d) = guard.as_mut() {
+					match catch(AssertUnwindSafe(|| d.apply_next_segments())) {
+						Ok(Ok(())) => {}
+						Ok(Err(e)) => st.inc(&format!("apply-err:{}", error_class(&e))),
+						Err(m) => out.raw(&format!("#ORACLE-FAIL C16 e2e {}: apply_next_segments panicked: {}", name, m)),
+					}
+					// the server's completion test (`state_sync.rs`): `check_progress`, not
+					// `is_complete()` -- the latter never turns true when the last output segment
+					// is not full (`next_required_output_segment_index` keeps asking for it)
+					complete = matches!(d.check_progress(Arc::new(SyncState::new())), Ok(true));
+					if complete && !d.is_complete() {
+						st.inc("complete-by-check_progress-but-is_complete-false");
+					}
+				}
+			}
+			st.add(&format!("{}:rounds", name), rounds);
+			if !complete {
+				let (o, r, k) = {
+					let ts = dest.c().txhashset();
+					let ts = ts.read();
+					(ts.output_mmr_size(), ts.rangeproof_mmr_size(), ts.kernel_mmr_size())
+				};
+				let want: Vec<String> = match deseg.write().as_mut() {
+					Some(d) => d.next_desired_segments(12).iter().map(|x| format!("{:?}:{}:{}", x.segment_type, x.identifier.height, x.identifier.idx)).collect(),
+					None => vec![],
+				};
+				out.raw(&format!(
+					"#ORACLE-FAIL C16 e2e {}: desegmenter not complete after {} rounds of honest + tampered deliveries: local sizes output={} rangeproof={} kernel={} archive output={} kernel={} still wanted={:?}",
+					name, rounds, o, r, k, ah.output_mmr_size, ah.kernel_mmr_size, want
+				));
+				continue;
+			}
+			// finalise, as `StateSync` does: leaf sets, then full validation
+			if let Some(d) = deseg.read().as_ref() {
+				if let Err(e) = d.check_update_leaf_set_state() {
+					out.raw(&format!("#ORACLE-FAIL C16 e2e {}: check_update_leaf_set_state failed: {}", name, error_class(&e)));
+				}
+			}
+			let fin = {
+				let guard = deseg.read();
+				let d = guard.as_ref().unwrap();
+				catch(AssertUnwindSafe(|| d.validate_complete_state(Arc::new(SyncState::new()), Arc::new(StopState::new()))))
+			};
+			let fin_s = match &fin {
+				Ok(Ok(())) => "ok".to_string(),
+				Ok(Err(e)) => format!("err:{}", error_class(e)),
+				Err(m) => format!("panic:{}", m),
+			};
+			st.inc(&format!("validate_complete_state:{}", fin_s));
+			// the roots of the assembled state vs the archive header
+			let roots = dest.c().txhashset().read().roots().unwrap();
+			let roots_match = roots.validate(&ah).is_ok();
+			if fin_s == "ok" && !roots_match {
+				out.raw(&format!("#ORACLE-FAIL C16 e2e {}: state finalised with roots other than the archive header's", name));
+			}
+			if poisoned {
+				// redundant tampered data may have been applied: either outcome is fine as long
+				// as nothing with other roots was finalised (checked above)
+				st.inc(&format!("poisoned-receiver:{}", if fin_s == "ok" { "finalised-with-right-roots" } else { "refused-at-final-roots-check" }));
+				if fin_s != "ok" {
+					continue;
+				}
+			}
+			if fin_s != "ok" {
+				out.raw(&format!("#ORACLE-FAIL C16 e2e {}: honest segments (in random order, with duplicates and rejected tampered copies) did not lead to a finalised state: {}", name, fin_s));
+				continue;
+			}
+			let head = dest.c().head().unwrap();
+			if head.last_block_h != ah.hash() {
+				out.raw(&format!("#ORACLE-FAIL C16 e2e {}: body head after state sync is not the archive header", name));
+			}
+			let obs = dest.utxo(&kit);
+			let droots = dest.roots();
+			let dvalid = dest.c().validate(false).is_ok();
+			st.add(&format!("{}:unspent-at-archive", name), obs.len() as u64);
+			if obs != ref_obs {
+				out.raw(&format!("#ORACLE-FAIL C16 e2e {}: unspent set after state sync differs from block-by-block: {:?} vs {:?}", name, obs, ref_obs));
+			}
+			if droots != ref_roots {
+				out.raw(&format!("#ORACLE-FAIL C16 e2e {}: roots after state sync differ from block-by-block: {} vs {}", name, droots, ref_roots));
+			}
+			if dvalid != ref_valid || !dvalid {
+				out.raw(&format!("#ORACLE-FAIL C16 e2e {}: full validation after state sync {} vs block-by-block {}", name, dvalid, ref_valid));
+			}
+			st.inc("receivers-finalised-equal-to-block-by-block");
+		}
+	}
+	// regression probe for the repaired `Desegmenter::new` (commit 769a13f24; finding
+	// C16-desegmenter-new-panics-single-chunk): with at most 1024 outputs at the archive header
+	// (one bitmap chunk) `calc_bitmap_mmr_sizes` used to panic through an eagerly evaluated
+	// `unwrap` inside `unwrap_or(..)`
+	{
+		let mut kit = Kit::new(&format!("{}/e2e_small_src", work));
+		let mut tip = 0usize;
+		let mut headers = vec![];
+		for _ in 1..=42u64 {
+			if let Ok(id) = kit.new_block(tip, 2, &[]) {
+				tip = id;
+				headers.push(kit.blks[id].block.header.clone());
+			}
+		}
+		let dest = Subject::new(&format!("{}/e2e_small_dst", work), &kit.genesis);
+		let r = dest.sync_headers(&headers);
+		let ah = dest.c().txhashset_archive_header_header_only().unwrap();
+		let res = catch(AssertUnwindSafe(|| dest.c().desegmenter(&ah).map(|d| d.read().as_ref().map(|d| d.expected_bitmap_mmr_size()))));
+		match res {
+			Err(m) => out.raw(&format!(
+				"#ORACLE-FAIL C16 regression (C16-desegmenter-new-panics-single-chunk): Chain::desegmenter panicked archive_height={} output_leaves={} headers={} panic=({})",
+				ah.height,
+				pmmr::n_leaves(ah.output_mmr_size),
+				r,
+				m
+			)),
+			Ok(Ok(Some(sz))) => {
+				st.inc("single-chunk-desegmenter:constructed");
+				if sz != 1 {
+					out.raw(&format!("#ORACLE-FAIL C16 expected bitmap MMR size for one chunk is {} (must be 1)", sz));
+				}
+			}
+			Ok(_) => out.raw("#ORACLE-FAIL C16 regression (C16-desegmenter-new-panics-single-chunk): Chain::desegmenter returned no desegmenter"),
+		}
+	}
+	st.dump(out, "e2e");
+}
+
 fn main() {
-	quiet_panics();
+	if std::env::var("VERIF_DEBUG").is_err() {
+		quiet_panics();
+	}
 	let args: Vec<String> = std::env::args().collect();
 	let mode = args.get(1).map(|s| s.as_str()).unwrap_or("all");
 	let mut rng = Rng::new(seed_from_env());
@@ -934,6 +1656,12 @@ fn main() {
 	}
 	if mode == "store" || mode == "all" {
 		store_mode(&mut out, &mut rng, thorough);
+	}
+	if mode == "bitmap" || mode == "all" {
+		bitmap_mode(&mut out, &mut rng, thorough);
+	}
+	if mode == "e2e" {
+		e2e_mode(&mut out, &mut rng, thorough);
 	}
 	if mode == "ident" || mode == "all" {
 		ident_mode(&mut out, &mut rng, thorough);
